@@ -57,6 +57,11 @@ func (r *round2) StoreBroadcastMessage(msg round.Message) error {
 		return round.ErrNilFields
 	}
 
+	// the polynomial must have the agreed degree, and a constant term exactly when this is not a refresh
+	if body.Phi_i.Degree() != r.threshold || body.Phi_i.IsConstant != r.refresh {
+		return fmt.Errorf("party %s sent a polynomial of the wrong shape", from)
+	}
+
 	if err := body.Commitment.Validate(); err != nil {
 		return fmt.Errorf("commitment: %w", err)
 	}
